@@ -10,7 +10,7 @@ EXPLANATION = ("R11.1 SettleFunding succeeds only with now >= next_funding_time;
                "max(((now+period)/3600)*3600, now+buffer), buffer = period/2 written only at instantiate; R11.3 pay_funding_reply "
                "appends exactly once (cumulative = last + new), payment = total_position_size * fraction / decimals, negative -> "
                "insurance Withdraw(|p|), positive -> transfer min(balance, p) to the insurance fund, zero -> nothing; R11.4 at every "
-               "position store the margin comes from a remain-margin result iff the checkpoint comes from the same result.")
+               "position store the margin comes from a remain-margin result iff the checkpoint comes from the same result. R11.9 the funding transfer capped at the vault balance sends min(balance, amount).")
 NOT_DECIDED = "TWAP values themselves (C18); numeric exactness beyond formula identity."
 
 VAMM = "margined_vamm"
